@@ -25,13 +25,14 @@ var charOf = func() map[rune]string {
 }()
 
 // Patterns maps pattern ids of JV.PatIds to regular expressions with identical RE2 / ECMA-262 meaning.
-var Patterns = map[string]string{"p_a": "^a", "p_b": "b$", "p_ab": "^[ab]*$", "p_2": "^.{2}$"}
+var Patterns = map[string]string{"p_a": "^a", "p_b": "b$", "p_ab": "^[ab]*$", "p_2": "^.{2}$",
+	"p_pct": "^[ab%]*$", "p_esc": `^\x61+$`}
 
 type M = map[string]any
 
 func str(v any) string { s, _ := v.(string); return s }
 
-// num turns an abstract numeral into exact decimal text: an integer count of half units, or a
+// num turns an abstract numeral into exact decimal text: an integer count of quarters (JV.U = 4), or a
 // landmark record {t:"big", sg, e, o} standing for sg*2^e + o.
 func num(v any) (string, error) {
 	switch x := v.(type) {
@@ -66,14 +67,11 @@ func num(v any) (string, error) {
 }
 
 func halfText(h int64) string {
-	if h%2 == 0 {
-		return strconv.FormatInt(h/2, 10)
-	}
 	neg := h < 0
 	if neg {
 		h = -h
 	}
-	s := strconv.FormatInt(h/2, 10) + ".5"
+	s := strconv.FormatInt(h/4, 10) + [...]string{"", ".25", ".5", ".75"}[h%4]
 	if neg {
 		s = "-" + s
 	}
@@ -349,7 +347,7 @@ func fromVal(v any) any {
 		if !ok {
 			return odd(x)
 		}
-		two := new(big.Rat).Mul(r, big.NewRat(2, 1))
+		two := new(big.Rat).Mul(r, big.NewRat(4, 1))
 		if two.IsInt() && two.Num().IsInt64() {
 			h := two.Num().Int64()
 			if h > -(1<<20) && h < (1<<20) {
